@@ -16,6 +16,7 @@ from typing import cast, BinaryIO, Optional
 
 from wpull.backport.logging import StyleAdapter
 from wpull.body import Body
+from wpull.errors import ServerError
 from wpull.document.css import CSSReader
 from wpull.document.html import HTMLReader
 from wpull.path import anti_clobber_dir_path, parse_content_disposition, \
@@ -256,7 +257,9 @@ class BaseFileWriterSession(BaseWriterSession):
         # enums that appear to define this case, it is checked throughout
         # the code, but the HTTP function doesn't even use them.
         # FIXME: unit test is needed for this case
-        raise IOError(
+        # A fault of this URL's server, not of the local disk: the item
+        # fails, the crawl goes on.
+        raise ServerError(
             _('Server not able to continue file download: {filename}.')
             .format(filename=self._filename))
 
